@@ -19,6 +19,16 @@ class Watchdog(Exception):
     pass
 
 
+def worker_exists(pid):
+    """a live (not zombie, not vanished) process with this pid that is a child of ours"""
+    try:
+        import psutil
+        p = psutil.Process(pid)
+        return p.ppid() == os.getpid() and p.status() != psutil.STATUS_ZOMBIE
+    except Exception:
+        return False
+
+
 def run_one(case, top, watchdog_s=40):
     import labtech
     import labtech.runners.process as P
@@ -78,19 +88,39 @@ def run_one(case, top, watchdog_s=40):
         finally:
             signal.alarm(0)
         wall = time.time() - t0
+        # public observation: once run_tasks has returned no task object of the case answers `.result` any more
+        readable_after = dagcase.readable_results(objs)
         time.sleep(0.05)
         lines = [l.rstrip('\n') for l in open(exec_log)] if os.path.exists(exec_log) else []
         execs = sorted(l for l in lines if l[0] in 'XL')
         spans = [l.split(' ') for l in lines if l[0] == 'T']
+        # which bodies were entered / left, and (for a run that hung) whose worker process still exists
+        entered = {}
+        for l in lines:
+            if l[0] == 'E':
+                entered[int(l.split(' ')[1])] = int(l.split(' ')[2])
+        left = sorted({int(l.split(' ')[1]) for l in lines if l[0] == 'Q'})
+        alive = []
+        if status.startswith('HANG'):
+            alive = sorted(k for k, pid in entered.items() if pid != os.getpid() and worker_exists(pid))
+            for k in alive:      # the run is abandoned: its workers must not keep a core busy under the next case
+                try:
+                    os.kill(entered[k], signal.SIGKILL)
+                except OSError:
+                    pass
         store = {}
         for t, o in sorted(first.items()):
-            if lab.is_cached(o):
-                store[t] = dagcase.code(o._lt.cache.load_result_with_meta(lab._storage, o).value)
+            try:
+                if lab.is_cached(o):
+                    store[t] = dagcase.code(o._lt.cache.load_result_with_meta(lab._storage, o).value)
+            except BaseException as e:     # reported cached but does not load: shows up as a cache that is not the expected one
+                store[t] = 'does not load: ' + type(e).__name__
         marked = sorted(i for i, o in enumerate(objs) if o.result_meta is not None)
         runner = holder.get('runner')
-        left = sorted(t.k for t in runner.results_map) if runner is not None else []
+        results_left = sorted(t.k for t in runner.results_map) if runner is not None else []
         return dict(status=status, execs=execs, store={str(k): v for k, v in store.items()}, marked=marked,
-                    results_left=left, wall=round(wall, 3), top=top,
+                    results_left=results_left, wall=round(wall, 3), top=top, readable_after=readable_after,
+                    entered=sorted(entered), left=left, alive=alive,
                     spans=[dict(k=int(s[1]), start=float(s[2]), end=float(s[3]), pid=int(s[4]), type=s[5]) for s in spans])
     finally:
         shutil.rmtree(wd, ignore_errors=True)
@@ -116,7 +146,7 @@ def main():
         except BaseException as e:
             import traceback
             rec = dict(status='HARNESS-ERROR ' + traceback.format_exc()[-500:], execs=[], store={}, marked=[], results_left=[],
-                       wall=0, top=job['top'], spans=[])
+                       wall=0, top=job['top'], spans=[], readable_after=[], entered=[], left=[], alive=[])
         rec['index'] = job['index']
         out.append(rec)
         json.dump(out, open(sys.argv[2], 'w'))
